@@ -4,7 +4,8 @@
 // For every case it serves ONE generated series `m` (float / float-histogram / integer-histogram
 // samples, stale markers of both kinds) from an in-memory storage.Queryable that, like the TSDB
 // querier, returns only the samples inside the [hints.Start, hints.End] range the engine asked
-// for, runs the REAL promql engine on one instant query of one of the modelled forms
+// for (and a second time from a storage that ignores the hints and returns every sample), runs the
+// REAL promql engine on one instant query of one of the modelled forms
 //
 //	m <mods>                      timestamp(m <mods>)
 //	m[r] <mods>                   f(m[r] <mods>)                f in count/last/min_over_time
@@ -110,9 +111,6 @@ func toSample(s smp) chunks.Sample {
 	}
 }
 
-// noFilter (env C28_NOFILTER, debugging only): serve all samples whatever the hints.
-var noFilter = os.Getenv("C28_NOFILTER") != ""
-
 // ---- storage -----------------------------------------------------------------------------------
 
 type selRec struct {
@@ -120,9 +118,13 @@ type selRec struct {
 	NoHints                  bool
 }
 
+// memQueryable serves the one series. With all == false it returns exactly the samples inside the
+// hinted range (as the TSDB block querier trims); with all == true it ignores the hints and returns
+// every sample (as remote-read style storages and storage.MockQuerier based tests do).
 type memQueryable struct {
 	ss   []smp
 	recs *[]selRec
+	all  bool
 }
 
 type oneSet struct {
@@ -161,7 +163,7 @@ func (q *memQueryable) Querier(mint, maxt int64) (storage.Querier, error) {
 		*q.recs = append(*q.recs, rec)
 		var l []chunks.Sample
 		for _, s := range q.ss {
-			if noFilter || (s.T >= lo && s.T <= hi) {
+			if q.all || (s.T >= lo && s.T <= hi) {
 				l = append(l, toSample(s))
 			}
 		}
@@ -331,13 +333,13 @@ func hpayload(h *histogram.FloatHistogram) (int64, bool) {
 	return int64(h.Count), true
 }
 
-func run(ss []smp, q query, ts, lookback, defStep int64) (res result, recs []selRec) {
+func run(ss []smp, q query, ts, lookback, defStep int64, all bool) (res result, recs []selRec) {
 	defer func() {
 		if r := recover(); r != nil {
 			res = result{Err: fmt.Sprintf("panic: %v", r)}
 		}
 	}()
-	mq := &memQueryable{ss: ss, recs: &recs}
+	mq := &memQueryable{ss: ss, recs: &recs, all: all}
 	qry, err := engine(defStep).NewInstantQuery(context.Background(), mq,
 		promql.NewPrometheusQueryOpts(false, time.Duration(lookback)*time.Millisecond), q.String(), time.UnixMilli(ts))
 	if err != nil {
@@ -453,6 +455,7 @@ type desc struct {
 	DefStep  int64  `json:"default_subquery_step_ms"`
 	Hints    string `json:"hints"`
 	Result   result `json:"result"`
+	ResAll   result `json:"result_storage_ignoring_hints"`
 	Shape    string `json:"shape"`
 	Corpus   string `json:"corpus,omitempty"`
 }
@@ -720,7 +723,7 @@ func main() {
 	f := gallina.ParseFlags()
 	meta := gallina.NewMeta("C28", f.Seed, f.Tier)
 	meta.Rule = "corpus + seeded cases: one series (0..24 samples; float / float-histogram / integer-histogram, stale markers, ms- to 15s-scale spacing, negative times) and one instant query of the six modelled forms whose window edges (lookback, range, subquery window, step grid) are steered onto sample timestamps / step multiples (0, +-1, w-1, w, w+1) through ts, offset (both signs) and @; non-trivial = the real engine returned a non-empty result (at least one selected point); distinct by (series, query text, ts, lookback, default step)"
-	cf := &gallina.CaseFile{Dir: f.Out, Type: "case", PerShard: 700,
+	cf := &gallina.CaseFile{Dir: f.Out, Type: "case", PerShard: 420,
 		Preamble: "From Coq Require Import List ZArith.\nFrom Verif Require Import lib.Int64 model.PromqlSelect corr.CorrC28.\nImport ListNotations.\nOpen Scope Z_scope.\n",
 		Footer:   gallina.StdFooter}
 	debug := os.Getenv("C28_DEBUG") != ""
@@ -733,7 +736,8 @@ func main() {
 			return
 		}
 		seen[key] = true
-		res, recs := run(c.ss, c.q, c.ts, c.lookback, c.defStep)
+		res, recs := run(c.ss, c.q, c.ts, c.lookback, c.defStep, false)
+		resAll, _ := run(c.ss, c.q, c.ts, c.lookback, c.defStep, true)
 		hs, he := int64(0), int64(-1)
 		hints := "none"
 		if len(recs) == 1 && !recs[0].NoHints {
@@ -749,6 +753,13 @@ func main() {
 		meta.Hit(c.q.Kind)
 		if cl := class(c); cl != "" {
 			meta.Hit(cl)
+		}
+		if resAll.Err != "" && res.Err == "" {
+			meta.Hit("error-unfiltered")
+			meta.Notes = append(meta.Notes, fmt.Sprintf("case %d: %s: (storage ignoring hints) %s", id, qs, resAll.Err))
+		}
+		if fmt.Sprint(res) != fmt.Sprint(resAll) {
+			meta.Hit("hinted-differs-from-unfiltered")
 		}
 		if res.Err != "" {
 			meta.Hit("error")
@@ -784,17 +795,17 @@ func main() {
 		if debug {
 			fmt.Printf("%d %-40s ts=%d lb=%d hints=%s -> %s %v\n", id, qs, c.ts, c.lookback, hints, res.Err, res.Pts)
 		}
-		cf.Add(fmt.Sprintf("mkCase %s (mkCfg %s %s %s) %s %s (%s, %s) %s",
+		cf.Add(fmt.Sprintf("mkCase %s (mkCfg %s %s %s) %s %s (%s, %s) %s %s",
 			gallina.Z(int64(id)), gallina.Z(c.ts), gallina.Z(c.lookback), gallina.Z(c.defStep),
-			seriesTerm(c.ss), c.q.term(), gallina.Z(hs), gallina.Z(he), resTerm(res)))
-		meta.Case(id, desc{Series: c.ss, Query: qs, Q: c.q, Ts: c.ts, Lookback: c.lookback, DefStep: c.defStep, Hints: hints, Result: res, Shape: shape, Corpus: c.corpus})
+			seriesTerm(c.ss), c.q.term(), gallina.Z(hs), gallina.Z(he), resTerm(res), resTerm(resAll)))
+		meta.Case(id, desc{Series: c.ss, Query: qs, Q: c.q, Ts: c.ts, Lookback: c.lookback, DefStep: c.defStep, Hints: hints, Result: res, ResAll: resAll, Shape: shape, Corpus: c.corpus})
 		meta.Evaluations++
 		id++
 	}
 	for _, c := range corpus() {
 		emit(c)
 	}
-	n := f.Count(1800, 50000)
+	n := f.Count(1200, 40000)
 	for i := 0; i < n; i++ {
 		emit(genCase(gen.Fork(f.Seed, i)))
 	}
